@@ -274,7 +274,7 @@ fn run_case(c: &Case) -> CaseOut {
                 }
             }
             let in_line = format!(
-                "fmt\t{}\t{}\t{}\t{}\t{}\t{}\t{}\t{}",
+                "fmt\t{}\t{}\t{}\t{}\t{}\t{}\t{}\t{}\t{}",
                 c.cfg.to_proto(),
                 proto::hex(c.input.as_bytes()),
                 proto::list(&snap.kinds),
@@ -283,9 +283,10 @@ fn run_case(c: &Case) -> CaseOut {
                 proto::changed(&snap.contents_pre, &snap.contents_post),
                 proto::list(&alnum),
                 proto::list(&c.cursors),
+                if c.well_formed { "1" } else { "0" },
             );
             let exp_line = format!(
-                "marks={}\tlv={}\tpre={}\tprec={}\tkr=1\twc=1\tnd=1\tcur={}\tout={}",
+                "marks={}\tlv={}\tpre={}\tprec={}\tkr=1\twc=1\tnd=1\trx=1\tcur={}\tout={}",
                 proto::list(&snap.marks),
                 proto::lines(&snap.lines_voided),
                 proto::fmts(&snap.fmt_pre),
